@@ -79,6 +79,18 @@ def plan(tier, seed):
         P.add("esp", shape=shape, nc=nc, cw=cw, kw=kw, thresh=pick(rng, [1e-3, 0.02]),
               crop=pick(rng, [0.5, 0.8, 0.95]), kind="bandlimited", dt="complex128",
               eseed=int(rng.integers(1 << 30)))
+    # realistic matrix sizes: long, strongly anisotropic 2-D matrices in both orientations
+    # (a 96 x 640 readout-oversampled slice), a 3-D volume - tens of thousands of voxels
+    real_ = [[96, 640], [640, 96], [12, 600], [600, 12], [200, 300], [16, 64, 72], [72, 20, 16]]
+    for i in range(3 if quick else 14):
+        shape = real_[int(rng.integers(4))] if quick else real_[i % len(real_)]
+        nd = len(shape)
+        kw = 3
+        cw = min(min(shape), 12 if nd == 2 else 9)
+        P.add("esp", shape=shape, nc=4 if nd == 2 else 7, cw=cw, kw=kw,
+              thresh=pick(rng, [1e-3, 0.02]), crop=pick(rng, [0.5, 0.8, 0.95]),
+              kind="bandlimited", dt=pick(rng, ["complex128", "complex64"]),
+              eseed=int(rng.integers(1 << 30)), timeout=1200)
     return P.cases
 
 
@@ -121,6 +133,13 @@ def run_case(case):
             import sigpy as sp_
             app = mr.app.EspiritCalib(ksp, case["cw"], case["thresh"], case["kw"], case["crop"],
                                       100, sp_.cpu_device, True, False)
+        elif case["eseed"] % 4 == 3:
+            # the progress bar left at its default (on; tqdm itself is silenced through
+            # TQDM_DISABLE): what it displays must not touch what is returned
+            app = mr.app.EspiritCalib(ksp, calib_width=case["cw"], thresh=case["thresh"],
+                                      kernel_width=case["kw"], crop=case["crop"],
+                                      output_eigenvalue=True)
+            sig += "|pbar"
         else:
             app = mr.app.EspiritCalib(ksp, calib_width=case["cw"], thresh=case["thresh"],
                                       kernel_width=case["kw"], crop=case["crop"],
@@ -133,6 +152,23 @@ def run_case(case):
                                         kernel_width=case["kw"], crop=case["crop"],
                                         output_eigenvalue=True, show_pbar=False)
         mps, eig = app.run()
+        if case["eseed"] % 5 == 2:
+            # history: run() once more on the finished calibration: the same maps again
+            mk_, ek_ = np.array(mps, copy=True), np.array(eig, copy=True)
+            mps_b, eig_b = app.run()
+            if not (np.array_equal(mps, mk_, equal_nan=True)
+                    and np.array_equal(np.asarray(eig), ek_, equal_nan=True)):
+                return violated(sig, "the arrays returned by the first run() were changed by a "
+                                "second run() on the same calibration object", wit,
+                                mech="rerun-alias")
+            if not (np.allclose(mps_b, mk_, rtol=1e-9, atol=1e-12, equal_nan=True)
+                    and np.allclose(np.asarray(eig_b), ek_, rtol=1e-9, atol=1e-12,
+                                    equal_nan=True)):
+                return violated(sig, "a second run() on the finished calibration returns other "
+                                "maps (%d NaN, max diff %.3g)" % (
+                                    int(np.sum(np.isnan(mps_b))),
+                                    float(np.nanmax(np.abs(mps_b - mk_)))), wit,
+                                mech="rerun-output")
         if case["eseed"] % 5 == 1 and case["crop"]:
             # history: the same calibration first fails in its output step (crop=None cannot be
             # compared), the caller repairs the setting on the object and runs it again: the
@@ -157,9 +193,11 @@ def run_case(case):
                         np.max(np.abs(np.asarray(eig2_) - np.asarray(eig))) > rt_:
                     return violated(sig, "a calibration object whose first run() failed in the "
                                     "output step (crop=None) and was then repaired returns other "
-                                    "maps than a fresh one: max diff %.3g, %d voxels with a "
-                                    "different zero pattern" % (
-                                        float(np.max(np.abs(mps2 - mps))), dz), wit,
+                                    "maps than a fresh one: max diff %.3g (eigenvalues %.3g), "
+                                    "%d voxels with a different zero pattern" % (
+                                        float(np.max(np.abs(mps2 - mps))),
+                                        float(np.max(np.abs(np.asarray(eig2_)
+                                                            - np.asarray(eig)))), dz), wit,
                                     mech="rerun-after-failure")
     except Exception as e:
         inn = e
